@@ -10,8 +10,9 @@
 (***************************************************************************)
 EXTENDS Integers, Sequences, FiniteSets, Json, IOUtils, TLC
 
-A == ndJsonDeserialize(IOEnv.TRACEA)
-B == ndJsonDeserialize(IOEnv.TRACEB)
+\* loaded once by LInit into TLC registers (definitions are re-evaluated on every use)
+A == TLCGet(1)
+B == TLCGet(2)
 Prop == IF "PROP" \in DOMAIN IOEnv THEN IOEnv.PROP ELSE "C03"
 
 VARIABLES la, lb, skip, case, fin
@@ -19,7 +20,7 @@ lvars == <<la, lb, skip, case, fin>>
 
 Report(v) == PrintT("VERDICT " \o ToJson(v))
 
-LInit == la = 1 /\ lb = 1 /\ skip = FALSE /\ case = 0 /\ fin = FALSE
+LInit == TLCSet(1, ndJsonDeserialize(IOEnv.TRACEA)) /\ TLCSet(2, ndJsonDeserialize(IOEnv.TRACEB)) /\ la = 1 /\ lb = 1 /\ skip = FALSE /\ case = 0 /\ fin = FALSE
 
 Verdict(why, a, b) ==
     [case |-> case, line |-> la, lineb |-> lb, property |-> Prop, why |-> why,
@@ -59,13 +60,13 @@ LBoth ==
 \* to its next reset line
 LDrainA ==
     /\ A[la].k # "reset"
-    /\ (skip \/ lb > Len(B) \/ B[lb].k = "reset")
+    /\ (IF skip \/ lb > Len(B) THEN TRUE ELSE B[lb].k = "reset")
     /\ (~skip => Report(Verdict("length", A[la], "<<end of case>>")))
     /\ skip' = TRUE
     /\ la' = la + 1 /\ UNCHANGED <<lb, case, fin>>
 
 LDrainB ==
-    /\ la > Len(A) \/ A[la].k = "reset"
+    /\ (IF la > Len(A) THEN TRUE ELSE A[la].k = "reset")
     /\ B[lb].k # "reset"
     /\ (~skip => Report(Verdict("length", "<<end of case>>", B[lb])))
     /\ skip' = TRUE
